@@ -65,6 +65,9 @@ pub enum Op {
     TraceCheck { t: u8, tr: u8 },
     DropTrace { t: u8, tr: u8 },
     SwitchDefault { t: u8, sel: Sel },
+    /// a body that enters the span, optionally emits an event, and panics; the guard is dropped by
+    /// the unwinding and the panic is caught on the same thread, which then goes on
+    PanicScope { t: u8, slot: u8, event: bool },
 }
 #[derive(Clone, Debug, Serialize, Deserialize)]
 pub struct Case {
@@ -589,6 +592,7 @@ fn run_case(mode: Mode, case: &Case) -> Outcome {
                 Op::Drop { t, slot } => Op::Drop { t, slot: o(slot) },
                 Op::Enter { t, slot } => Op::Enter { t, slot: o(slot) },
                 Op::Entered { t, slot } => Op::Entered { t, slot: o(slot) },
+                Op::PanicScope { t, slot, event } => Op::PanicScope { t, slot: o(slot), event },
                 Op::Create { t, slot, parent: Parent::Explicit(p), name } => Op::Create { t, slot, parent: Parent::Explicit(o(p)), name },
                 Op::Event { t, parent: Parent::Explicit(p) } => Op::Event { t, parent: Parent::Explicit(o(p)) },
                 other => other,
@@ -782,6 +786,44 @@ fn run_case(mode: Mode, case: &Case) -> Outcome {
                             let g: Entered<'static> = unsafe { std::mem::transmute(g) };
                             ts.guards.push(Guard::Borrowed { g, _keep: keep });
                         })
+                    }
+                }
+            }
+            Op::PanicScope { t, slot, event } => {
+                let (t, s) = (t as usize % NT, slot as usize % NSLOT);
+                match m.slots[s] {
+                    // (only under the span's own registry: an exit under a foreign default is F2)
+                    Some(H::On(x)) if reg_of(m.default[t]) == Some(m.spans[x].reg) => {
+                        let h = H::On(x);
+                        let r = m.spans[x].reg;
+                        m.enter(h, t);
+                        if event {
+                            let assert_parent = !m.has_dup(r, t);
+                            let cur = m.cur_assert(r, t);
+                            let par = m.cur(r, t);
+                            m.want[r].push(Want { kind: LKind::Event, thread: t, ms: None, parent: if assert_parent { par } else { None }, current: if assert_parent { cur } else { None } });
+                            if !assert_parent {
+                                m.want[r].last_mut().unwrap().ms = Some(usize::MAX);
+                            }
+                        }
+                        m.exit(h, t);
+                        classes.push("guard_dropped_by_unwinding".into());
+                        let sl = slots.clone();
+                        st.run(t, move |_| {
+                            let keep = sl.lock().unwrap()[s].clone().unwrap();
+                            let r = std::panic::catch_unwind(std::panic::AssertUnwindSafe(|| {
+                                let _g = keep.enter();
+                                if event {
+                                    emit_event(0, None);
+                                }
+                                panic!("scripted panic inside an entered span");
+                            }));
+                            assert!(r.is_err());
+                        })
+                    }
+                    _ => {
+                        skipped = true;
+                        Ok(())
                     }
                 }
             }
@@ -1247,6 +1289,7 @@ impl Property for RegProp {
             5 => (t(), s()).prop_map(|(t, slot)| Op::Drop { t, slot }),
             6 => (t(), s()).prop_map(|(t, slot)| Op::Enter { t, slot }),
             2 => (t(), s()).prop_map(|(t, slot)| Op::Entered { t, slot }),
+            1 => (t(), s(), any::<bool>()).prop_map(|(t, slot, event)| Op::PanicScope { t, slot, event }),
             6 => (t(), any::<u16>()).prop_map(|(t, g)| Op::DropGuard { t, g }),
             2 => (t(), s()).prop_map(|(t, to)| Op::Current { t, to }),
             if c06 { 4 } else { 1 } => (t(), parent()).prop_map(|(t, parent)| Op::Event { t, parent }),
